@@ -45,6 +45,7 @@ def scenarios(pid, tier, rng):
         for n in (2, 4, 8):
             for d in (100, 300) if thorough else (100,):
                 scs.append({"loops": 1, "submitters": 1, "per": n, "body": "sleep", "sleep_ms": d, "join": True, "join_ms": 3000, "max": 16})
+                scs.append({"loops": 1, "submitters": 1, "per": n, "body": "recvwait", "sleep_ms": d, "join": True, "join_ms": 3000, "max": 16})
     reps = 2 if thorough else 1
     out = []
     for r in range(reps):
